@@ -128,7 +128,9 @@ Arguments Run {Tree Args}. Arguments Edit {Tree Args}.
 (* A tree assigns a version to every file; [store f v] is the content of version v of file f, so a
    file's (len, mtime) — modelled by the version — determines its content by construction. *)
 Definition vtree := list (str * N).
-Definition tstate := list (str * N).
+(* the recorded tree state: (len, mtime) — the version — of every loaded file, and the files that
+   were looked for and not found (lazefile candidates of imports, fix d85df0c) *)
+Definition tstate := (list (str * N) * list str)%type.
 
 Record cargs := {
   ca_bin : N;                                  (* build uuid of the laze binary *)
@@ -226,7 +228,8 @@ Definition cview (a : cargs) (r : gen_result) : gen_result :=
 Definition version (t : vtree) (f : str) : N := odflt 0%N (alookup f t).
 
 Definition cts_valid (ts : tstate) (t : vtree) : bool :=
-  forallb (fun fv => match alookup (fst fv) t with Some v => N.eqb v (snd fv) | None => false end) ts.
+  forallb (fun fv => match alookup (fst fv) t with Some v => N.eqb v (snd fv) | None => false end) (fst ts) &&
+  forallb (fun f => match alookup f t with Some _ => false | None => true end) (snd ts).
 
 Section Instance.
   Variable H : list ascii -> N.
@@ -236,12 +239,13 @@ Section Instance.
 
   Definition ytree_of (t : vtree) : ytree := map (fun fv => (fst fv, store (fst fv) (snd fv))) t.
 
-  Definition loaded_files (t : ytree) : res (list str) :=
-    rmap (fun r => map fst (snd r)) (load_files (S (S (length t * 8))) t [(project_file, None)] 0 []).
+  Definition loaded_files (t : ytree) : res (list str * list str) :=
+    rmap (fun r => (map fst (snd r), absent_of t (fst r)))
+         (load_files (load_fuel t) t [(project_file, (None, None))] 0 []).
 
   Definition cload_ts (t : vtree) : res tstate :=
     rbind (load (ytree_of t) project_file bd) (fun _ =>
-    rmap (map (fun f => (f, version t f))) (loaded_files (ytree_of t))).
+    rmap (fun fa => (map (fun f => (f, version t f)) (fst fa), snd fa)) (loaded_files (ytree_of t))).
 
   Definition cgen (t : vtree) (a : cargs) : res gen_result :=
     rbind (load (ytree_of t) project_file bd) (fun b =>
